@@ -59,11 +59,111 @@ def programs(rng, tier):
         if rng.random() < 0.05:
             b = random_bdd(rng, nv + 1)
         P.add(["cmp_implies", bdd_sx(a), bdd_sx(b)])
+    # cmp_implies on medium-sized, structurally different but comparable operands
+    for _ in range(150 if tier == "quick" else 4000):
+        nv = rng.choice([5, 6, 7, 8, 9])
+        a = random_bdd(rng, nv, max_support=nv, density=rng.choice([0.2, 0.4, 0.6]))
+        ta = raw_tt(a)
+        extra = raw_tt(random_bdd(rng, nv, max_support=nv, density=rng.choice([0.1, 0.3])))
+        k = rng.random()
+        if k < 0.4:
+            b = bdd_from_tt(nv, list(range(nv)), [x or y for x, y in zip(ta, extra)])
+        elif k < 0.7:
+            b = bdd_from_tt(nv, list(range(nv)), [x and y for x, y in zip(ta, extra)])
+        elif k < 0.8:
+            b = a
+        else:
+            b = random_bdd(rng, nv, max_support=nv)
+        P.add(["cmp_implies", bdd_sx(a), bdd_sx(b)])
+    # comparable operands over interleaved, disjoint supports: the number of (left,right) task pairs is ~|a|*|c|
+    for _ in range(80 if tier == "quick" else 2000):
+        nv = rng.choice([6, 8, 10])
+        va = [x for x in range(nv) if x % 2 == 0]
+        vc = [x for x in range(nv) if x % 2 == 1]
+        ta = [rng.random() < 0.5 for _ in range(1 << len(va))]
+        tc = [rng.random() < 0.4 for _ in range(1 << len(vc))]
+        a = bdd_from_tt(nv, va, ta)
+        fa = lambda asg: ta[sum((1 << (len(va) - 1 - i)) for i, x in enumerate(va) if asg[x])]
+        fc = lambda asg: tc[sum((1 << (len(vc) - 1 - i)) for i, x in enumerate(vc) if asg[x])]
+        k = rng.random()
+        if k < 0.5:
+            b = bdd_from_fn(nv, list(range(nv)), lambda asg: fa(asg) or fc(asg))
+        elif k < 0.8:
+            b = bdd_from_fn(nv, list(range(nv)), lambda asg: fa(asg) and fc(asg))
+        else:
+            b = bdd_from_tt(nv, vc, tc)
+        if rng.random() < 0.5:
+            a, b = b, a
+        P.add(["cmp_implies", bdd_sx(a), bdd_sx(b)])
+    # comparable pairs of different shape: (a&b, a|c), (a&~c, b|a), bad-ordering pairings x_i & x_{i+k}
+    for _ in range(150 if tier == "quick" else 4000):
+        nv = rng.choice([8, 10, 10, 12])
+        if rng.random() < 0.3:
+            k = nv // 2
+            pairs = [(i, i + k) for i in range(k) if rng.random() < 0.8]
+            fa = lambda asg, pairs=pairs: any(asg[i] and asg[j] for i, j in pairs)
+            fb = lambda asg, k=k: all(asg[i] != asg[nv - 1 - i] for i in range(min(3, k)))
+            fc = fb
+        else:
+            ta, tb, tc = (raw_tt(random_bdd(rng, nv, max_support=4)) for _ in range(3))
+            idx = lambda asg: sum((1 << (nv - 1 - x)) for x in range(nv) if asg[x])
+            fa = lambda asg, ta=ta: ta[idx(asg)]
+            fb = lambda asg, tb=tb: tb[idx(asg)]
+            fc = lambda asg, tc=tc: tc[idx(asg)]
+        shape = rng.randrange(4)
+        if shape == 0:
+            f1, f2 = (lambda g: fa(g) and fb(g)), (lambda g: fa(g) or fc(g))
+        elif shape == 1:
+            f1, f2 = (lambda g: fa(g) and not fc(g)), (lambda g: fb(g) or fa(g))
+        elif shape == 2:
+            f1, f2 = fa, (lambda g: fa(g) or fc(g))
+        else:
+            f1, f2 = (lambda g: fa(g) and fb(g) and fc(g)), (lambda g: fa(g) == fb(g))
+        a = bdd_from_fn(nv, list(range(nv)), f1)
+        b = bdd_from_fn(nv, list(range(nv)), f2)
+        if rng.random() < 0.5:
+            a, b = b, a
+        P.add(["cmp_implies", bdd_sx(a), bdd_sx(b)])
+    # random DNF/XOR-of-cubes functions (sparse, structurally unrelated but comparable): (a, a|b), (a&b, a), (a&b, a|c), (a&~c, b|a)
+    def rand_cubes_fn(nv, k):
+        cl = []
+        for _ in range(k):
+            vs = [rng.randrange(nv) for _ in range(rng.randrange(2, 5))]
+            cl.append([(x, rng.random() < 0.5) for x in vs])
+        xor = [rng.random() < 0.3 for _ in cl]
+
+        def f(asg):
+            r = False
+            for c, x in zip(cl, xor):
+                val = all(asg[v] == b for v, b in c)
+                r = (r != val) if x else (r or val)
+            return r
+        return f
+
+    for _ in range(900 if tier == "quick" else 20000):
+        nv = rng.choice([7, 10, 10])
+        fa, fb, fc = rand_cubes_fn(nv, rng.randrange(1, 2 * nv)), rand_cubes_fn(nv, rng.randrange(1, 2 * nv)), rand_cubes_fn(nv, 3)
+        sh = rng.randrange(4)
+        if sh == 0:
+            f1, f2 = fa, (lambda g: fa(g) or fb(g))
+        elif sh == 1:
+            f1, f2 = (lambda g: fa(g) and fb(g)), fa
+        elif sh == 2:
+            f1, f2 = (lambda g: fa(g) and fb(g)), (lambda g: fa(g) or fc(g))
+        else:
+            f1, f2 = (lambda g: fa(g) and not fc(g)), (lambda g: fb(g) or fa(g))
+        a = bdd_from_fn(nv, list(range(nv)), f1)
+        b = bdd_from_fn(nv, list(range(nv)), f2)
+        if rng.random() < 0.5:
+            a, b = b, a
+        P.add(["cmp_implies", bdd_sx(a), bdd_sx(b)])
     return progs + P.progs
 
 
 _full = {}
+_fullmodel = {}
 _dinf = {}
+_minf = {}
 
 
 def judge(st, V):
@@ -80,6 +180,8 @@ def judge(st, V):
         a, b = bdd_nodes(call[1]), bdd_nodes(call[2])
         if a[0][0] != b[0][0]:
             want = "N"
+        elif a[0][0] > 12:
+            want = model
         else:
             ta, tb = raw_tt(a), raw_tt(b)
             le = all((not x) or y for x, y in zip(ta, tb))
@@ -96,6 +198,7 @@ def judge(st, V):
     sample(V, st)
     if op == "fbin":
         _full[sx_str(call[1:])] = impl
+        _fullmodel[sx_str(call[1:])] = model
         if not semantic_agree(impl, model, aux):
             V.skipped += 1   # a broken unrestricted operator is C01/C04's business; the limited variants are compared with the model
         return
@@ -120,36 +223,49 @@ def judge(st, V):
             V.nontrivial.add(key_of(call))
         return
     if op in ("dry", "drybin"):
-        # model: (flag, count) or N or PANIC.  relation: flag exact; None iff model None; count >= decision nodes (not compared exactly)
+        # relation: flag exact; None iff the implementation's own unlimited count exceeds the limit;
+        # count >= decision nodes of the result (the exact count is recorded, not compared)
         if model == "PANIC" or impl == "PANIC":
             if model != impl:
                 V.violations.append(violation(PID, st, "dry run panic behaviour differs", confirmed=(impl == "PANIC"), relation="panic iff model panics"))
             return
-        if op == "dry" and call[1] == "100000000" and impl != "N":
-            _dinf[sx_str(call[2:])] = int(impl[1][2])
-        own = _dinf.get(sx_str(call[2:])) if op == "dry" else None
+        key = sx_str(call[2:])
+        if op == "dry" and call[1] == "100000000":
+            if impl != "N":
+                _dinf[key] = int(impl[1][2])
+            if model != "N":
+                _minf[key] = (model[1][1], int(model[1][2]))
+        own = _dinf.get(key) if op == "dry" else None
         want_none = (own > int(call[1])) if own is not None else (model == "N")
         if (impl == "N") != want_none:
             V.violations.append(violation(PID, st, "dry run returns None exactly when the task count exceeds the limit",
-                                          oracle={"limit": call[1], "observed": sx_str(impl), "model": sx_str(model)}, confirmed=True,
-                                          relation="None iff count > limit"))
+                                          oracle={"limit": call[1], "observed": sx_str(impl), "model": sx_str(model),
+                                                  "own_unlimited_count": own}, confirmed=True, relation="None iff count > limit"))
             return
         if impl == "N":
             return
         iflag, icount = impl[1][1], int(impl[1][2])
-        mflag, mcount = model[1][1], int(model[1][2])
+        if model != "N":
+            mflag, mcount = model[1][1], int(model[1][2])
+        elif key in _minf:
+            mflag, mcount = _minf[key]
+        else:
+            V.skipped += 1
+            return
+        full = _fullmodel.get(key) if op == "dry" else None
         if iflag != mflag:
             V.violations.append(violation(PID, st, "dry run non-emptiness flag differs from !result.is_false()",
-                                          oracle={"observed_flag": iflag, "expected_flag": mflag}, confirmed=True, relation="flag exact"))
+                                          oracle={"observed_flag": iflag, "expected_flag": mflag,
+                                                  "unrestricted_result": sx_str(full) if full is not None else None}, confirmed=True, relation="flag exact"))
             return
-        key = sx_str(call[2:]) if op == "dry" else None
-        full = _full.get(key)
         if full is not None and is_bdd(full):
             dec = max(0, len(bdd_nodes(full)) - 2)
             if icount < dec:
                 V.violations.append(violation(PID, st, "dry run task count is below the number of decision nodes of the result",
-                                              oracle={"count": icount, "decision_nodes": dec}, confirmed=True, relation="count >= decision nodes"))
+                                              oracle={"count": icount, "decision_nodes": dec, "unrestricted_result": sx_str(full)}, confirmed=True,
+                                              relation="count >= decision nodes"))
                 return
         if icount != mcount:
             V.count("count_differs_from_model")
-        V.nontrivial.add(key_of(call)) if mcount >= 2 else None
+        if mcount >= 2:
+            V.nontrivial.add(key_of(call))
